@@ -156,7 +156,12 @@ def lib_probe(rng):
 
 def lib_polluter(rng):
     cls = rng.choice(sorted(LIB_CTORS))
-    lines = ["导入《@HTTP》", "", "令乙 = %s" % rng.choice(LIB_CTORS[cls])]
+    lines = ["导入《@HTTP》", ""]
+    if rng.random() < 0.3:
+        # the program gives the library's type a constructor of its own
+        params = "甲、乙" if cls == "HTTP响应" else "甲、乙、丙"
+        lines += ["如何新建%s？" % cls, "    输入%s" % params, "    其%s = %s" % (rng.choice(LIB_PROPS[cls]), rng.choice(["“占”", "999"])), ""]
+    lines.append("令乙 = %s" % rng.choice([c for c in LIB_CTORS[cls] if c.count("、") == (1 if cls == "HTTP响应" else 2)] or LIB_CTORS[cls]))
     for _ in range(rng.randrange(1, 5)):
         k = rng.randrange(6)
         if k == 0 and LIB_DICTS[cls]:
@@ -185,8 +190,9 @@ def run_lib_objects(chk, n, replay=None):
         for _ in range(n):
             cases.append(([lib_polluter(rng) for _ in range(rng.randrange(1, 4))], lib_probe(rng)))
     for shared in (True, False):
-        seqs = core.harness("c16", "seq", [{"progs": ps + [q], "shared": shared} for ps, q in cases])
-        alone = core.harness("c16", "seq", [{"progs": [q], "shared": shared} for ps, q in cases])
+        # every sequence and every lone probe in a process of its own (a leak would otherwise travel from case to case)
+        seqs = [core.harness("c16", "seq", [{"progs": ps + [q], "shared": shared}])[0] for ps, q in cases]
+        alone = [core.harness("c16", "seq", [{"progs": [q], "shared": shared}])[0] for ps, q in cases]
         for (ps, q), o, a in zip(cases, seqs, alone):
             chk.count(["libseq", shared, ps, q])
             chk.dist("libobj:%s" % ("shared-interpreter" if shared else "separate-interpreters"))
@@ -205,6 +211,65 @@ def run_lib_objects(chk, n, replay=None):
                                                   "observed": got, "alone": ref, "replay_cmd": "./check C16 --replay <this file>"})
 
 
+# ---- module files: what an import yields is a function of the files as they are when the execution runs, not of what earlier
+# executions in the process imported
+def file_history(rng):
+    """-> list of steps; the LAST step is the probe run, the steps before it write / rewrite module files and run polluters"""
+    mods = rng.sample(["价目", "工具", "库/深"], rng.randrange(1, 3))
+
+    def module_text(ver):
+        lines = ["如何取值？", "    输出%d * 2" % ver, ""]
+        if rng.random() < 0.5:
+            lines += ["定义物：", "    其量 = %d" % (ver + 1), "", "    如何报？", "        输出其量", ""]
+        return "\n".join(lines) + "\n"
+
+    def main_text():
+        lines = []
+        for m in mods:
+            lines.append("导入“%s”" % m.replace("/", "-"))
+        lines.append("（显示：（取值））")
+        lines.append("输出（取值）")
+        return "\n".join(lines) + "\n"
+    steps = [{"write": {m + ".zn": module_text(rng.randrange(1, 50)) for m in mods}}]
+    steps[0]["write"]["主.zn"] = main_text()
+    steps[0]["write"]["探.zn"] = main_text()
+    for _ in range(rng.randrange(1, 4)):
+        steps.append({"run": "主.zn"})
+        if rng.random() < 0.8:
+            steps.append({"write": {rng.choice(mods) + ".zn": module_text(rng.randrange(50, 99))}})
+    steps.append({"run": "探.zn"})
+    return steps
+
+
+def run_file_histories(chk, n, replay=None):
+    rng = chk.rng
+    hists = [replay["steps"]] if replay is not None else [file_history(rng) for _ in range(n)]
+    for shared in (True, False):
+        full = [core.harness("c16", "fileseq", [{"steps": h, "shared": shared}])[0] for h in hists]
+        # the probe alone, in a fresh process, on the files as they are at the end
+        alone = []
+        for h in hists:
+            files = {}
+            for st in h:
+                files.update(st.get("write", {}))
+            alone.append({"steps": [{"write": files}, h[-1]], "shared": shared})
+        ref = [core.harness("c16", "fileseq", [a])[0] for a in alone]
+        for h, o, a in zip(hists, full, ref):
+            chk.count(["fileseq", shared, h])
+            chk.dist("module-files:%s" % ("shared-interpreter" if shared else "separate-interpreters"))
+            if "outs" not in o or "outs" not in a or not o["outs"] or not a["outs"]:
+                chk.violation("file-based execution sequence crashed the process: %s" % json.dumps(o)[:200], "files:crash",
+                              {"kind": "files", "steps": h, "observed": o})
+                continue
+            got, want = o["outs"][-1], a["outs"][-1]
+            if got != want:
+                chk.violation("what an execution imports depends on earlier executions in the process: after the history %s the probe gives %s, "
+                              "alone on the same files %s" % (json.dumps(h, ensure_ascii=False)[:300], json.dumps(got, ensure_ascii=False)[:120],
+                                                              json.dumps(want, ensure_ascii=False)[:120]),
+                              "files:stale-import", {"kind": "files", "steps": h, "shared_interpreter": shared, "observed": got, "alone": want,
+                                                     "replay_cmd": "./check C16 --replay <this file>"})
+
+
 def truncate_after_error(ops, obs):
     """a program stops at its first uncaught error: later operations produce no observation"""
     return obs
@@ -215,6 +280,9 @@ def run(chk, replay=None):
     quick = chk.tier == "quick"
     if replay is not None and replay.get("kind") == "libobj":
         run_lib_objects(chk, 0, replay)
+        return
+    if replay is not None and replay.get("kind") == "files":
+        run_file_histories(chk, 0, replay)
         return
     nseq = 60 if quick else 600
     seqs = []
@@ -263,6 +331,7 @@ def run(chk, replay=None):
     if replay is not None:
         return
     run_lib_objects(chk, 60 if quick else 800)
+    run_file_histories(chk, 25 if quick else 400)
     chk.sample({"polluters": [render(p) for p in seqs[3][0]] if len(seqs) > 3 else [], "probe": render(seqs[-1][1])})
     # interleavings over one shared interpreter, replayed at method granularity
     nsch = 60 if quick else 600
